@@ -189,7 +189,10 @@ impl VxDuration {
 #[verifier::external_body] pub struct VxChannelsRO { _p: u8 }
 #[verifier::external_body] pub struct SecretKeyStack { _p: u8 }
 // the ready channel (if any) whose funding outpoint is `o`, as find_channel_with_funding_outpoint (below) returns it
-pub uninterp spec fn funded_channel(c: VxChannelsRO, o: OutPoint) -> Option<VxSlot>;
+pub open spec fn first_funding(slots: Seq<VxSlot>, o: OutPoint, k: int) -> Option<VxSlot> decreases slots.len() - k {
+    if k < 0 || k >= slots.len() { None } else if slot_funds(slots[k], o) { Some(slots[k]) } else { first_funding(slots, o, k + 1) }
+}
+pub open spec fn funded_channel(c: VxChannelsRO, o: OutPoint) -> Option<VxSlot> { first_funding(c.slots(), o, 0) }
 impl VxChannelsRO {
     // the slots of the map in iteration order (`channels_lock.iter()`, keys dropped)
     pub uninterp spec fn slots(&self) -> Seq<VxSlot>;
@@ -205,6 +208,8 @@ pub open spec fn slot_funds(s: VxSlot, o: OutPoint) -> bool { s@ is Ready && s@-
         r.is_some() ==> exists|i: int| 0 <= i < channels_lock.slots().len() && r->Some_0 == #[trigger] channels_lock.slots()[i]
             && slot_funds(channels_lock.slots()[i], *outpoint),                                          //[C08.lookup.found-is-ready-and-funded-here]
         r.is_none() ==> forall|i: int| 0 <= i < channels_lock.slots().len() ==> !slot_funds(#[trigger] channels_lock.slots()[i], *outpoint),   //[C08.lookup.none-means-none]
+        // exactly: the FIRST ready slot (in the map's iteration order) funded by this outpoint
+        r == funded_channel(*channels_lock, *outpoint),                                                   //[C08.lookup.first-ready-slot-funded-here]
 //@sigsub /&MutexGuard<OrderedMap<ChannelId, Arc<Mutex<ChannelSlot>>>>/ => &VxChannelsRO
 //@sigsub /Option<Arc<Mutex<ChannelSlot>>>/ => Option<VxSlot>
 //@sub /for \(_, slot_arc\) in channels_lock\.iter\(\) \{/ => let vx_sl = channels_lock.vx_slots(); for slot_arc in it: vx_sl.iter() {
@@ -215,6 +220,7 @@ pub open spec fn slot_funds(s: VxSlot, o: OutPoint) -> bool { s@ is Ready && s@-
         invariant
             vx_sl@ == channels_lock.slots(),
             forall|i: int| 0 <= i < it.index@ ==> !slot_funds(#[trigger] channels_lock.slots()[i], *outpoint),
+            first_funding(channels_lock.slots(), *outpoint, 0) == first_funding(channels_lock.slots(), *outpoint, it.index@ as int),
 //@end
 
 pub uninterp spec fn txid_of(tx: Transaction) -> Txid;
@@ -222,15 +228,19 @@ pub open spec fn funded_slots(c: VxChannelsRO, tx: Transaction) -> Seq<Option<Vx
     Seq::new(tx.output@.len(), |k: int| funded_channel(c, OutPoint { txid: txid_of(tx), vout: k as u32 }))
 }
 pub open spec fn values_of(p: Seq<TxOut>) -> Seq<u64> { Seq::new(p.len(), |k: int| amount_sat(p[k].value)) }
-// `(0..tx.output.len()).map(|ndx| find_channel_with_funding_outpoint(&lock, &OutPoint { txid, vout: ndx as u32 })).collect()`
+// `(0..tx.output.len()).map(CLOSURE).collect()`: the closure applied to every output index, in order (std semantics); CLOSURE is
+// lifted verbatim below (check_onchain_tx closure=1, rewrite R26) and proved equal to spec_funded_slot
+pub open spec fn spec_funded_slot(c: VxChannelsRO, txid: Txid, ndx: int) -> Option<VxSlot> { funded_channel(c, OutPoint { txid, vout: ndx as u32 }) }
 #[verifier::external_body]
 pub fn vx_funded_slots(c: &VxChannelsRO, txid: Txid, tx: &Transaction) -> (r: Vec<Option<VxSlot>>)
     requires txid == txid_of(*tx),
-    ensures r@ == funded_slots(*c, *tx)
+    ensures r@ == Seq::new(tx.output@.len(), |k: int| spec_funded_slot(*c, txid, k))
 { unimplemented!() }
-// `prev_outs.iter().map(|o| o.value.to_sat()).collect::<Vec<_>>()`
+// `prev_outs.iter().map(CLOSURE).collect::<Vec<_>>()`: the closure applied to every element (std semantics); CLOSURE is lifted
+// verbatim below (exprclosure=1) and proved equal to spec_prev_value
+pub open spec fn spec_prev_value(o: TxOut) -> u64 { amount_sat(o.value) }
 #[verifier::external_body]
-pub fn vx_values_sat(p: &[TxOut]) -> (r: Vec<u64>) ensures r@ == values_of(p@) { unimplemented!() }
+pub fn vx_values_sat(p: &[TxOut]) -> (r: Vec<u64>) ensures r@ == Seq::new(p@.len(), |k: int| spec_prev_value(p@[k])) { unimplemented!() }
 // ---- the weight lower bound of check_onchain_tx (the `for (idx, uck) in uniclosekeys.iter().enumerate()` loop, now on the
 // real body): tx.weight() plus, for every input whose previous output has a script type the node signs for, the size of the
 // witness the node will add (77 weight units + the unilateral-close witness stack, or a 33-byte key); an input with an
@@ -252,9 +262,18 @@ pub open spec fn stack_wit_len(stack: Seq<Vec<u8>>) -> nat decreases stack.len()
 pub open spec fn wit_len_of(uck: Option<(SecretKey, Vec<Vec<u8>>)>) -> nat {
     match uck { Some(ks) => stack_wit_len(ks.1@), None => 33 }
 }
-// `stack.iter().map(|v| 1 + v.len()).sum()` (iterator sum: std semantics)
+// `stack.iter().map(CLOSURE).sum()` (iterator sum: std semantics): the sum of the closure's values; CLOSURE is lifted verbatim
+// below (exprclosure=2) and proved equal to spec_wit_elem
+pub open spec fn spec_wit_elem(v: Vec<u8>) -> nat { 1 + v@.len() }
+pub open spec fn sum_wit_elems(stack: Seq<Vec<u8>>) -> nat decreases stack.len() {
+    if stack.len() == 0 { 0 } else { sum_wit_elems(stack.drop_last()) + spec_wit_elem(stack.last()) }
+}
 #[verifier::external_body]
-pub fn vx_stack_wit_len(stack: &Vec<Vec<u8>>) -> (r: usize) ensures r == stack_wit_len(stack@), r < 0x1_0000_0000 { unimplemented!() }
+pub fn vx_stack_wit_len(stack: &Vec<Vec<u8>>) -> (r: usize) ensures r == sum_wit_elems(stack@), r < 0x1_0000_0000 { unimplemented!() }
+pub proof fn lemma_sum_wit_elems(stack: Seq<Vec<u8>>) ensures sum_wit_elems(stack) == stack_wit_len(stack) decreases stack.len()
+{
+    if stack.len() > 0 { lemma_sum_wit_elems(stack.drop_last()); }
+}
 pub open spec fn weight_lb(tx: Transaction, ucks: Seq<Option<(SecretKey, Vec<Vec<u8>>)>>, prev: Seq<TxOut>, k: int) -> nat decreases k {
     if k <= 0 { tx_weight(tx) }
     else { weight_lb(tx, ucks, prev, k - 1) + (if spend_type_of(prev[k - 1].script_pubkey) is Invalid { 0nat } else { 77 + wit_len_of(ucks[k - 1]) }) }
@@ -295,6 +314,21 @@ impl VxNodeOn {
         &&& vc_abs(f.fee_velocity_control) == vc_step(vc_abs(o.fee_velocity_control), now, (nb * 1000) as u64)
     }
 
+//@fn vls-core/src/node.rs :: impl Node :: check_onchain_tx closure=1 as=funded_slot_closure props=C08
+//@sig fn funded_slot_closure(channels_lock: &VxChannelsRO, txid: Txid, ndx: usize) -> (r: Option<VxSlot>)
+    ensures r == spec_funded_slot(*channels_lock, txid, ndx as int),                        //[C08.node.output-k-is-looked-up-under-outpoint-txid-k]
+//@sub /find_channel_with_funding_outpoint\(&channels_lock, &outpoint\)/ => find_channel_with_funding_outpoint(channels_lock, &outpoint)
+//@end
+//@fn vls-core/src/node.rs :: impl Node :: check_onchain_tx exprclosure=2 as=prev_value_closure props=C08
+//@sig fn prev_value_closure(o: &TxOut) -> (r: u64)
+    ensures r == spec_prev_value(*o),                                                        //[C08.node.input-values-are-the-previous-outputs-values]
+//@end
+//@fn vls-core/src/node.rs :: impl Node :: check_onchain_tx exprclosure=1 as=wit_elem_closure props=C08
+//@sig fn wit_elem_closure(v: &Vec<u8>) -> (r: usize)
+    requires v@.len() < 0x1_0000_0000,
+    ensures r == spec_wit_elem(*v),
+//@end
+
 //@fn vls-core/src/node.rs :: impl Node :: check_onchain_tx props=C08
 //@sigsub /&self/ => &mut self
     requires
@@ -320,18 +354,24 @@ impl VxNodeOn {
                 assert(weight_lower_bound == weight_lb(*tx, uniclosekeys@, prev_outs@, uniclosekeys@.len() as int) as usize);
             }
         }
+//@proof before /let validator = self\.validator\(\);/ #1
+        proof { assert(channels@ =~= funded_slots(self.channels, *tx)); }
+//@proof before /weight_lower_bound \+= 2 \+ 1/
+                proof { match uck { Some(ks) => { lemma_sum_wit_elems(ks.1@); }, None => {} } }
+//@proof before /let non_beneficial_sat = /
+        proof { assert(values_sat@ =~= values_of(prev_outs@)); }
 //@sub /(?s)let channels: Vec<Option<VxSlot>> = \(0\.\.tx\.output\.len\(\)\)\s*\.map\(\|ndx\| \{.*?\}\)\s*\.collect\(\);/ => let channels: Vec<Option<VxSlot>> = vx_funded_slots(&channels_lock, txid, tx);
 //@sub /let channels_lock = self\.get_channels\(\);/ => let channels_lock = &self.channels;
 //@sub /tx\.weight\(\)\.to_wu\(\) as usize/ => vx_tx_weight(tx)
 //@sub /for \(idx, uck\) in uniclosekeys\.iter\(\)\.enumerate\(\) \{/ => for idx in 0..uniclosekeys.len() { let uck = vx_index(uniclosekeys, idx);
 //@sub /&prev_outs\[idx\]\.script_pubkey/ => &vx_index(prev_outs, idx).script_pubkey
-//@sub /stack\.iter\(\)\.map\(\|v\| 1 \+ v\.len\(\)\)\.sum\(\)/ => vx_stack_wit_len(stack)
+//@sub /stack\s*\.iter\(\)\s*\.map\(\|v\|[^\n;]*?\)\s*\.sum\(\)/ => vx_stack_wit_len(stack)
 //@loop 1 iter=itw
             invariant
                 itw.snapshot.end == uniclosekeys@.len(), uniclosekeys@.len() < 0x1_0000,
                 weight_lower_bound == weight_lb(*tx, uniclosekeys@, prev_outs@, itw.index@ as int),
                 weight_lower_bound <= 0x1_0000_0000 + itw.index@ * 0x2_0000_0000, weight_lower_bound >= tx_weight(*tx), tx_weight(*tx) > 0,
-//@sub /let values_sat = prev_outs\.iter\(\)\.map\(\|o\| o\.value\.to_sat\(\)\)\.collect::<Vec<_>>\(\);/ => let values_sat = vx_values_sat(prev_outs);
+//@sub /let values_sat = prev_outs\.iter\(\)\.map\(\|o\|[^\n;]*?\)\.collect::<Vec<_>>\(\);/ => let values_sat = vx_values_sat(prev_outs);
 //@sub /validator\.validate_onchain_tx\(\s*self,/ => validator.validate_onchain_tx(&self.wallet,
 //@sub /drop\(channels_lock\);/ => 
 //@sub /let mut state = self\.get_state\(\);/ => 
